@@ -53,6 +53,7 @@ def showReply : Reply → String
 structure DState where
   w : World
   flags : Flags
+  renames : Renames := []
 
 def encFlags (fl : Flags) : String :=
   if fl.isEmpty then "-" else ",".intercalate (fl.map fun x => enc x.1 ++ ":" ++ (if x.2 then "1" else "0"))
@@ -89,22 +90,23 @@ def decDisk (f : String) : Option (List (Name × Plugin)) :=
 def out (st : DState) (r : Reply) : DState × String :=
   (st, showReply r ++ "\t" ++ encList ((st.w.view 0).map (·.name)) ++ "\t" ++
     encList ((st.w.view 1).map (·.name)) ++ "\t" ++ encList (answered (st.w.view 0)) ++ "\t" ++
-    encFlags (sortedFlags st.flags))
+    encFlags (sortedFlags st.flags) ++ "\t" ++
+    (if st.w.ref.length > 2 then encList ((st.w.view 2).map (·.name)) else "~"))
 
 /-- run a command of the flag-aware layer on the list object the `i`-th Irc refers to -/
 def onBot (st : DState) (i : Nat) (f : Bot → Reply × Bot) : DState × String :=
   let r := st.w.ref.getD i 0
   let res := f ⟨st.w.heap.getD r [], st.flags⟩
-  out { w := { st.w with heap := st.w.heap.set r res.2.cbs }, flags := res.2.flags } res.1
+  out { st with w := { st.w with heap := st.w.heap.set r res.2.cbs }, flags := res.2.flags } res.1
 
 def stepD (st : DState) : List String → DState × String
   | ["reset", ps, fl] =>
     match (if ps = "-" then some [] else (ps.splitOn ",").mapM decPlugin), decFlags fl with
-    | some l, some fl => ({ w := { heap := [l], ref := [0, 0] }, flags := fl }, "ok")
+    | some l, some fl => ({ w := { heap := [l], ref := [0, 0] }, flags := fl, renames := [] }, "ok")
     | _, _ => (st, "bad-op")
   | ["load", i, n, av, f, hint] =>
     match i.toNat?, dec n, decOptPlugin av, decFaults f, decList hint with
-    | some i, some n, some av, some f, some h => onBot st i fun b => loadB (ordOf h) b n av f
+    | some i, some n, some av, some f, some h => onBot st i fun b => loadR (ordOf h) b st.renames n av f
     | _, _, _, _, _ => (st, "bad-op")
   | ["unload", i, n, f] =>
     match i.toNat?, dec n, decFaults f with
@@ -112,7 +114,7 @@ def stepD (st : DState) : List String → DState × String
     | _, _, _ => (st, "bad-op")
   | ["reload", i, n, av, f, hint] =>
     match i.toNat?, dec n, decOptPlugin av, decFaults f, decList hint with
-    | some i, some n, some av, some f, some h => onBot st i fun b => reloadB (ordOf h) b n av f
+    | some i, some n, some av, some f, some h => onBot st i fun b => reloadR (ordOf h) b st.renames n av f
     | _, _, _, _, _ => (st, "bad-op")
   | ["startup", i, disk, faults, important, always, hint] =>
     match i.toNat?, decDisk disk, decFaultMap faults,
@@ -124,8 +126,27 @@ def stepD (st : DState) : List String → DState × String
           important := imp, alwaysLoadImportant := always = "1" }
       onBot st i fun b => (.success, startup (ordOf h) env b)
     | _, _, _, _, _ => (st, "bad-op")
+  | ["connect"] => out { st with w := connect st.w } .success
+  | ["disconnect", i] =>
+    match i.toNat? with
+    | some i => out { st with w := disconnect st.w i } .success
+    | none => (st, "bad-op")
+  | ["rename", i, pl, c, nn] =>
+    match i.toNat?, dec pl, dec c, dec nn with
+    | some i, some pl, some c, some nn =>
+      let r := st.w.ref.getD i 0
+      let res := renameCmd (st.w.heap.getD r []) st.renames pl c nn
+      out { st with w := { st.w with heap := st.w.heap.set r res.2.1 }, renames := res.2.2 } res.1
+    | _, _, _, _ => (st, "bad-op")
+  | ["unrename", i, pl, av, f, hint] =>
+    match i.toNat?, dec pl, decOptPlugin av, decFaults f, decList hint with
+    | some i, some pl, some av, some f, some h =>
+      let r := st.w.ref.getD i 0
+      let res := unrenameCmd (ordOf h) ⟨st.w.heap.getD r [], st.flags⟩ st.renames pl av f
+      out { w := { st.w with heap := st.w.heap.set r res.2.1.cbs }, flags := res.2.1.flags, renames := res.2.2 } res.1
+    | _, _, _, _, _ => (st, "bad-op")
   | _ => (st, "bad-op")
 
 def handler : Driver.Handler :=
-  { σ := DState, init := { w := { heap := [[]], ref := [0, 0] }, flags := [] }, step := stepD }
+  { σ := DState, init := { w := { heap := [[]], ref := [0, 0] }, flags := [], renames := [] }, step := stepD }
 end C20
